@@ -141,6 +141,9 @@ type (
 
 		updatedStreamsDuringConverterJob bitmask.LongBitmask
 
+		// number of imports that added indexes, views remember it to detect that they are outdated
+		importGeneration uint64
+
 		streamsToConvert         map[string]*bitmask.LongBitmask
 		pcapProcessorWebhookUrls []string
 		pcapOverIPEndpoints      []*pcapOverIPEndpoint
@@ -212,6 +215,8 @@ type (
 
 		indexes  []*index.Reader
 		releaser indexReleaser
+
+		importGeneration uint64
 
 		tagDetails    map[string]query.TagDetails
 		tagConverters map[string][]string
@@ -693,6 +698,7 @@ func (mgr *Manager) importPcapJob(filenames []string, nextStreamID uint64, exist
 			mgr.addedStreamsDuringTaggingJob.Or(*addedStreams)
 			mgr.invalidateTags(*updatedStreams, *resetStreams, *addedStreams)
 			mgr.invalidateConverters(updatedStreams)
+			mgr.importGeneration++
 		}
 		// remove finished job from queue
 		mgr.importJobs = mgr.importJobs[processedFiles:]
@@ -2396,6 +2402,7 @@ func (v *View) fetch() error {
 	c := make(chan error)
 	v.mgr.jobs <- func() {
 		v.indexes, v.releaser = v.mgr.getIndexesCopy(0)
+		v.importGeneration = v.mgr.importGeneration
 		for tn, ti := range v.mgr.tags {
 			v.tagDetails[tn] = ti.TagDetails
 			for _, c := range ti.converters {
@@ -2649,7 +2656,16 @@ func (c StreamContext) Data(converterName string) ([]index.Data, error) {
 	data, _, _, wasCached, err := converter.Data(c.Stream(), true)
 	// only send event if the data wasn't cached before
 	if err == nil && !wasCached {
+		streamID := c.Stream().ID()
 		c.v.mgr.jobs <- func() {
+			if c.v.importGeneration != c.v.mgr.importGeneration {
+				// an import finished after this view was created, the stream might have been
+				// extended and its invalidation has run before the conversion was cached
+				changedStreams := bitmask.LongBitmask{}
+				changedStreams.Set(uint(streamID))
+				c.v.mgr.invalidateConverters(&changedStreams)
+				c.v.mgr.startConverterJobIfNeeded()
+			}
 			converter, ok := c.v.mgr.converters[converterName]
 			if ok {
 				c.v.mgr.event(Event{
